@@ -286,6 +286,43 @@ def rule_rawbytes(ctx, rep, rid="R-C14-rawbytes"):
                 "the result of %s" % via.split("::")[-1] if via else "something else"))
 
 
+def rule_bytesize(ctx, rep, rid="R-C14-bytesize"):
+    """The same text has a different number of bytes in each encoding (UTF-16 takes twice the bytes of UTF-8 for ASCII text).  So nothing may
+    be decided on the encoded size of a file: a limit on it accepts a program in one encoding and refuses it in another.  In the functions
+    of plc2x that read a source file (those from which std::fs::read / File::read* is reachable inside source.rs and project.rs), no call
+    asks for a byte count of the file or of the byte buffer (Metadata::len, <[u8]>::len, Vec<u8>::len).  Zero expected."""
+    r = rep.rule(rid, "nothing is decided on the encoded size of a source file: the file-reading functions ask for no byte count of the file or of the byte buffer", floor=1,
+                 floor_what="file-reading functions")
+    readers = []
+    for b in sorted(ctx.prog.bodies.values(), key=lambda x: x.id):
+        if b.f["crate"] != "ironplcc" or "::test" in norm(b.id):
+            continue
+        if any((c.callee or "") in ("std::fs::read", "std::fs::read_to_string") or (c.callee or "").startswith("std::fs::File::") or "std::io::Read" in (c.callee or "") for c in b.calls()):
+            readers.append(b)
+    # closures of the readers belong to them
+    units_ = []
+    for b in readers:
+        units_.append(b)
+        units_ += [cb for cb in ctx.prog.bodies.values() if cb.f.get("parent") == b.id]
+    n = 0
+    for b in units_:
+        fn = norm(b.id).replace("ironplcc::", "")
+        k = 0
+        for c in sorted(b.calls(), key=lambda c: (c.loc[0], c.loc[1])):
+            nm = c.callee or ""
+            ga = re.sub(r"\s", "", c.ga or "")
+            bytecount = nm == "std::fs::Metadata::len" or (nm.endswith("::len") and ("[u8]" in ga or ga.startswith("[u8") or "Vec<u8" in nm or "<u8" in ga))
+            if bytecount:
+                k += 1
+                r.finding("%s|byte count#%d|%s" % (fn, k, nm.split("::")[-2] + "::len"), loc_str(b.f, c.loc),
+                          "the number of encoded bytes is asked for where a source file is read: whatever is decided on it depends on the encoding of the file, not on its text")
+        if not k:
+            n += 1
+            r.ok(fn, "%s:%d" % (b.f["file"], b.f["line"]), "no byte count taken")
+    if not readers:
+        rep.error(rid, "no function of plc2x reads a file")
+
+
 def run(ctx, rep):
     rep.not_decided += ["equality of verdict/positions across encodings (follows from R-C14-single only under encoding_rs's contract, which is trusted)",
                         "column arithmetic after multi-byte characters (bytes vs chars vs UTF-16 units)", "behaviour on arbitrary binary input beyond the slice inventory"]
@@ -295,6 +332,7 @@ def run(ctx, rep):
     rule_slice(ctx, rep)
     rule_samestr(ctx, rep)
     rule_rawbytes(ctx, rep)
+    rule_bytesize(ctx, rep)
     from rules import c06_globals
     c06_globals.run(ctx, rep, rid="R-C14-globals")
     # spans are byte offsets into the pre-processed text but are applied to the original text: the pre-processor must keep every byte position
